@@ -295,7 +295,8 @@ def builder_decl_sets(tier, seed):
             d2 = decls.from_program(q)
             d2['name'] += '~perm'
             out.append(d2)
-        if any(prm['kind'] == 'switch' for n in p['nodes'] for prm in n['params']) and rnd.random() < 0.5:
+        if any(prm['kind'] == 'switch' for n in p['nodes'] for prm in n['params']) and \
+                (rnd.random() < 0.5 or p['name'].startswith('switch_two_unnamed')):
             d3 = decls.from_program(p, unnamed_switch=True)
             d3['name'] += '~unnamed'
             out.append(d3)
